@@ -168,6 +168,8 @@ def precond_check(ctx):
                 ma = re.match(r"^(!?)Iterator::any\(Range::Range\{start: (.*), end: (.*)\}, closure ([^\[]*)\[(.*), a1\]\)$", anyf[0])
                 lo = [g for g in gs if g.lstrip("!") == "lt(a2, %s.min_position)" % PC]
                 want_start = ("%s.min_position" % PC) if (lo and not lo[0].startswith("!")) else ("a2" if lo else None)
+                if ma is not None and ma.group(2) in ("Ord::max(a2, %s.min_position)" % PC, "Ord::max(%s.min_position, a2)" % PC):
+                    want_start = ma.group(2)  # max(start, min_position) computed rather than branched on
                 _rec(d, "floating|range-bounds", ma is not None and want_start is not None and ma.group(2) == want_start and ma.group(3) == "len(a1.search)" and ma.group(5) == PC, "the search for a floating precondition must range over max(start, min_position)..len; found %s" % anyf[0][:160], loc)
                 cb = ctx.body("re_matcher::ReMatcher::check_preconditions::{closure#0}")
                 crs = set()
@@ -190,6 +192,8 @@ def precond_check(ctx):
                 want_start = "%s.min_position" % PC
             elif lo:
                 want_start = "a2"
+            if m is not None and m.group(1) in ("Ord::max(a2, %s.min_position)" % PC, "Ord::max(%s.min_position, a2)" % PC):
+                want_start = m.group(1)
             _rec(d, "floating|range-bounds", m is not None and want_start is not None and m.group(1) == want_start and m.group(2) == "len(a1.search)", "the search for a floating precondition must range over max(start, min_position)..len; found %s" % rng[0][13:110], loc)
             if m and m.group(3) == "None":
                 _rec(d, "floating|not-found-false", p.end == "return" and r == "false", "a floating precondition found nowhere must answer false", loc)
